@@ -91,6 +91,15 @@ func specC03(tier string) *SeqSpec {
 		c("LMPOP", "1", "s1", "LEFT"), c("LMPOP", "2", "nokey", "s1", "LEFT"), c("LMPOP", "2", "k1", "s1", "LEFT"),
 	)
 	s.Sweep = S
+	// read; change; [change;] reads - from the initial states
+	reads := []Op{c("LINDEX", "k1", "0"), c("LINDEX", "k1", "1"), c("LINDEX", "k1", "2"), c("LINDEX", "k1", "3"), c("LINDEX", "k1", "-1"), c("LINDEX", "k1", "-2"), c("LRANGE", "k1", "1", "2"), c("LPOS", "k1", "y", "RANK", "2"), c("LLEN", "k1"), c("LINDEX", "k2", "0")}
+	var changes []Op
+	for _, a := range A {
+		if tier == "thorough" || !(a.Args[0] == "LPUSHX" || a.Args[0] == "RPUSHX" || a.Args[0] == "LSET" || a.Args[0] == "LREM" && a.Args[2] != "0") {
+			changes = append(changes, a)
+		}
+	}
+	s.InitSweep = staleSweep(reads, changes)
 	s.Depth = 3
 	if tier == "thorough" {
 		s.Depth = 4
